@@ -124,6 +124,12 @@ class Interp:
         the path x->f is a->b->f; with x = Ptr('S') it is S->f; with S->g = Ptr('T') the path S->g->h is T->h."""
         if key is None:
             return None
+        # p = o->array (array-to-pointer decay): p[i] is o->array[i]
+        kb = key.find("[")
+        if kb > 0 and "->" not in key[:kb] and "." not in key[:kb]:
+            v0 = self._lookup_raw(p, key[:kb])
+            if isinstance(v0, Alias):
+                key = v0.key + key[kb:]
         for _ in range(8):
             k = key.find("->")
             if k <= 0:
@@ -175,6 +181,10 @@ class Interp:
             v = self._lookup_raw(p, self.canon(p, b))
             if isinstance(v, Ptr) and isinstance(v.what, str) and v.what[:4] not in ("str:", "arr:") and not v.what.startswith("fn:"):
                 b = v.what        # indexing through a pointer to an abstract array object
+            elif isinstance(v, Alias):
+                b = v.key         # p = o->array; p[i] is o->array[i]
+            elif isinstance(v, Ptr) and isinstance(v.what, str) and v.what.startswith("arr:") and v.what[4:] not in ("None", ""):
+                b = v.what[4:]    # the same after array-to-pointer decay of a member array
             iv = self.ev(p, e["i"])
             if isinstance(iv, int):
                 return "%s[%d]" % (b, iv)
